@@ -28,6 +28,7 @@ EXPLANATION = (
     "core check reads the data, outside its reporting fields, only through the observers that define its constraint "
     "(frozen table: nulls via hasnans/isna, duplicates via is_unique/duplicated, dtype via .dtype and dtype.check, ...). (R9) column_info: a non-regex column is present iff its name is a column of the frame and absent iff missing and required, a regex column is always expanded through get_regex_columns; (R10) a core check looping over several constraint units never overwrites a False verdict in a later iteration; (R11) CheckResult.check_passed aggregates the boolean check output, and (R12) CoreCheckResult.passed never depends on the failure cases built for the report (which drop nulls / are truncated). " 
     " R9 also requires ColumnInfo.sorted_column_names to be the de-duplicated sequence of matched names (a frame column matched by two schema components occurs once). " 
+    " (R13) unique_column_names is decided on the number of duplicated labels, never on their truth value (labels 0 / '' are legal). " 
     "NOT decided: the biconditional accept(S,D) <=> D |= S "
     "itself - pandas semantics on data (NaN in duplicated, dtype equality, regex expansion on real labels)."
 )
